@@ -26,7 +26,7 @@ CHECKS = {
             'R4a a ConstrainedDecimal (every balance/ACB/amount) can only be created by the checking constructor: all aggregates enumerated, no '
             'field store / &mut borrow / DerefMut-style impl / transmute / unsafe; R4b every output mode (text, CSV, web-UI serialiser) exports '
             'RenderTable.errors and the app pushes the bookkeeping error into it; R4c partial deltas of a rejected security never reach a gains or '
-            'summary calculator; R4d registered affiliates never acquire a cost base or gain; R4e the post-split balance tested for integrality has no factor that is already a rounded quotient; R4f no bookkeeping product or quotient uses a split ratio's pre-divided factor. ' + PARTIAL % 'C04'),
+            'summary calculator; R4d registered affiliates never acquire a cost base or gain; R4e the post-split balance tested for integrality has no factor that is already a rounded quotient; R4f no bookkeeping product or quotient uses the pre-divided factor of a split ratio. ' + PARTIAL % 'C04'),
     'C05': ('other', 'abstract interpretation in a sign lattice (per generic instantiation) of every ConstrainedDecimal try_from().unwrap(); def-use rule parser-result -> unwrap',
             'R5a each of the ~25 infallibility beliefs `ConstrainedDecimal::try_from(e).unwrap()` is justified by sign algebra including rounding-to-zero, '
             'per instantiation of the generic wrappers (two sites by reviewed relational argument whose premises are re-checked); R5b no parser result on '
